@@ -1,4 +1,6 @@
 import HdModel.Lemmas.PoolFrame
+import HdModel.Model.PoolCompact
+import HdModel.Lemmas.PoolOrigin
 /-! # C15 — the pool keeps at most the configured number of idle connections per origin
 
 Theorem about the pool model `Hd.Pool` (mirror of `client/pool`): in **every** state reachable by
@@ -433,5 +435,78 @@ theorem C15_idle_bound (cfg : Config) (ops : List Op) (t : Token) :
   have hb := this.1 t
   rw [this.2] at hb
   exact hb
+
+end Hd.Pool
+
+namespace Hd.Pool
+
+theorem flatMap_all_nil {α β} (l : List α) (g : α → List β) (h : ∀ a ∈ l, g a = []) : l.flatMap g = [] := by
+  induction l with
+  | nil => rfl
+  | cons a l ih =>
+    simp only [List.flatMap_cons, h a (by simp), List.nil_append]
+    exact ih (fun b hb => h b (by simp [hb]))
+
+theorem flatMap_single_length {β} (ts : List Nat) (g : Nat → List β) (t0 : Nat) (hnd : ts.Nodup)
+    (h : ∀ t, t ≠ t0 → g t = []) : (ts.flatMap g).length ≤ (g t0).length := by
+  induction ts with
+  | nil => simp
+  | cons t ts ih =>
+    have hnd' := List.nodup_cons.mp hnd
+    simp only [List.flatMap_cons, List.length_append]
+    by_cases ht : t = t0
+    · subst ht
+      have : ts.flatMap g = [] := flatMap_all_nil ts g (fun a ha => h a (fun e => hnd'.1 (e ▸ ha)))
+      simp [this]
+    · rw [h t ht]; simpa using ih hnd'.2
+
+/-- the idle connections, found under the tokens `ts`, that were dialled for origin `k` -/
+def idleOf (s : State) (ts : List Token) (k : KeyId) : List (ConnId × Nat) :=
+  ts.flatMap fun t => (s.idle t).filter fun e => decide ((s.conns e.1).map (·.origin) = some k)
+
+/-- **C15 per origin.** The bound is per *origin*, not only per idle list: an origin's connections all sit in the
+    one list of the one token its key was given (C06: the token table never forgets or re-assigns a key), so however
+    many tokens one looks under - any duplicate-free collection, in particular all of them - the idle connections
+    dialled for one origin number at most `max_idle_per_host`, in every reachable state. -/
+theorem C15_per_origin (cfg : Config) (ops : List Op) (k : KeyId) (ts : List Token) (hnd : ts.Nodup) :
+    (idleOf (run (init cfg) ops).1 ts k).length ≤ cfg.maxIdle := by
+  have inv := run_originInv ops (init cfg) (originInv_init cfg)
+  generalize hs : (run (init cfg) ops).1 = s at inv
+  have hb : ∀ t, (s.idle t).length ≤ cfg.maxIdle := fun t => hs ▸ C15_idle_bound cfg ops t
+  -- a connection of origin `k` in the list of token `t`: `t` is the token of `k`
+  have hA : ∀ t e, e ∈ s.idle t → (s.conns e.1).map (·.origin) = some k → s.keys.lookup k = some t := by
+    intro t e he ho
+    obtain ⟨k', conn, hk, hc, hor⟩ := inv.idle t e.1 e.2 he
+    rw [hc] at ho
+    simp only [Option.map_some, Option.some.injEq] at ho
+    rw [← ho, hor]; exact hk
+  unfold idleOf
+  cases hl : s.keys.lookup k with
+  | none =>
+    rw [flatMap_all_nil]
+    · simp
+    · intro t _
+      apply List.filter_eq_nil_iff.mpr
+      intro e he
+      simp only [decide_eq_true_eq]
+      intro ho
+      have := hA t e he ho
+      rw [hl] at this; cases this
+  | some t0 =>
+    refine Nat.le_trans (flatMap_single_length ts _ t0 hnd ?_) (Nat.le_trans (List.length_filter_le _ _) (hb t0))
+    intro t ht
+    apply List.filter_eq_nil_iff.mpr
+    intro e he
+    simp only [decide_eq_true_eq]
+    intro ho
+    have := hA t e he ho
+    rw [hl] at this
+    exact ht (Option.some.inj this).symm
+
+/-- the premises are met by a non-trivial history: two origins, one idle connection each -/
+example :
+    let s := (run (init { maxIdle := 1 }) [.issue 0 0 false, .poll 0, .dialDone 0 (.ok .asRequested), .poll 0, .finish 0, .connReady 0, .run,
+                                            .issue 1 1 false, .poll 1, .dialDone 1 (.ok .asRequested), .poll 1, .finish 1, .connReady 1, .run]).1
+    (idleOf s [1, 2] 0).length = 1 ∧ (idleOf s [1, 2] 1).length = 1 := by decide
 
 end Hd.Pool
